@@ -589,7 +589,7 @@ func fsCalls(c Case) int {
 // generators
 
 var benchNames = []string{"A", "B", "Enc", "Dec/size=1", "Dec/big", "Sort-8", "Sort-16", "Sort/n=4-8", "Read-only-4", "Enc/utf-8-4", "x86-64"}
-var labelKeys = []string{"goos", "goarch", "pkg", "cpu", "commit", "branch", "note", "goos", "pkg", "upload", "upload-part", "upload-time"}
+var labelKeys = []string{"étape", "µarch", "goos", "goarch", "pkg", "cpu", "commit", "branch", "note", "goos", "pkg", "upload", "upload-part", "upload-time"}
 var junk = []string{"PASS", "ok  \tgolang.org/x/foo\t0.123s", "", "--- BENCH: BenchmarkA", "    bench_test.go:12: note", "BenchmarkNoFields", " BenchmarkIndented 1 2 ns/op", "FAIL", "goos linux"}
 
 func genBench(t *rapid.T) Row {
